@@ -25,11 +25,11 @@ deriving Repr
 
 def decided (b : Bool) : List (Notif Bool) := [.next b, .completed]
 
-/-- `on_next1` / `on_next2`, `on_completed1` / `on_completed2`, `on_error` — as written, after the `decided` test.
-Note the argument order of the comparer: the *queued* value comes first on both sides. -/
 /-- `decide(result)`: `decided[0] = True; observer.on_next(result); observer.on_completed()` -/
 def emitD {α} (s : SeqSt α) (b : Bool) : HOut (SeqSt α) Bool := emit { s with decided := true } (decided b)
 
+/-- `on_next1` / `on_next2`, `on_completed1` / `on_completed2`, `on_error` — as written, after the `decided` test.
+Note the argument order of the comparer: the *queued* value comes first on both sides. -/
 def seqHandleU {α} (cmp : α → α → Except Err Bool) (s : SeqSt α) : Side → Notif α → HOut (SeqSt α) Bool
   | .L, .next x =>
     match s.qr with
